@@ -24,7 +24,7 @@ m = {
     "version": 1,
     "setup_cmd": "./setup.sh",
     "hooks": {"guard": "RENORMALIZER_VERIF",
-              "enable": "RENORMALIZER_VERIF=1 in the environment of ./check; recorders are harness-side wrappers installed at import (harness/wrappers.py, harness/replay_*.py); no repository hook commits so far",
+              "enable": "no hook exists in the repository: every recorder is a harness-side wrapper installed around one call and removed in a finally block (ChainRecorder, TreeRecorder, SweepRecorder, PsRecorder, CoverRecorder, the file-system proxies of replay_dump, a logging handler for the adaptive controllers); the guard RENORMALIZER_VERIF is reserved and never read, so the baseline runs with it unset",
               "baseline_off_cmd": BASE,
               "source_commits": [],
               "add_only": True},
